@@ -244,7 +244,7 @@ pub fn check(case: &SchedCase) -> Verdict {
     Ok(())
 }
 
-fn render(c: &SchedCase) -> String {
+pub(crate) fn render(c: &SchedCase) -> String {
     format!(
         "rules [{}] suspend={} inputs={} order={:?} drop={:?} abandoned_before={}",
         c.spec.rules.iter().map(|(n, e)| format!("{n}: {}", show_expr(e))).collect::<Vec<_>>().join("; "),
@@ -257,7 +257,7 @@ fn render(c: &SchedCase) -> String {
 }
 
 impl SchedCase {
-    fn to_json(&self) -> serde_json::Value {
+    pub fn to_json(&self) -> serde_json::Value {
         json!({"spec": spec_to_json(&self.spec), "inputs": self.inputs.iter().map(value_to_json).collect::<Vec<_>>(),
             "order": self.order, "drop": self.drop.map(|(k, a)| json!([k, a])), "abandoned_before": self.abandoned_before})
     }
@@ -277,7 +277,7 @@ fn simple_facts(id: i128) -> Value {
     crate::pool::map(&[("id", Value::Int(1000 + id)), ("vi", Value::Int(5))])
 }
 
-fn random_case(bytes: &[u8]) -> SchedCase {
+pub(crate) fn random_case(bytes: &[u8]) -> SchedCase {
     let mut d = Dec::new(bytes);
     let fns = gen_fns(&mut d, false);
     let nrules = 1 + d.below(4);
@@ -347,6 +347,137 @@ fn core_specs() -> Vec<SetSpec> {
     ]
 }
 
+// ---- histories of evaluate(&T) calls whose serialization fails ----------------------------------------------------
+
+fn failing_inputs() -> Vec<crate::sval::SVal> {
+    use crate::sval::SVal::*;
+    let b = |x: crate::sval::SVal| Box::new(x);
+    let s = |x: &str| x.to_string();
+    vec![
+        NewtypeVariant(s("E"), 0, s("V"), b(Fail(s("refused")))),
+        NewtypeVariant(s("E"), 0, s("V"), b(U128(u128::MAX))),
+        NewtypeVariant(s("E"), 1, s("W"), b(Seq(vec![U8(1), Fail(s("refused"))], true))),
+        NewtypeStruct(s("N"), b(Fail(s("refused")))),
+        Some(b(Fail(s("refused")))),
+        Seq(vec![U8(1), Seq(vec![Seq(vec![Fail(s("refused"))], true)], false)], true),
+        Tuple(vec![Unit, Fail(s("refused"))]),
+        TupleStruct(s("T"), vec![U128(u128::MAX)]),
+        TupleVariant(s("E"), 0, s("V"), vec![U8(1), Fail(s("refused"))]),
+        Map(vec![(Str(s("a")), Fail(s("refused")))], true),
+        Map(vec![(Str(s("a")), Map(vec![(Str(s("b")), U128(u128::MAX))], false))], false),
+        Struct(s("S"), vec![(s("f"), U8(1)), (s("g"), Fail(s("refused")))]),
+        StructVariant(s("E"), 0, s("V"), vec![(s("f"), Struct(s("S"), vec![(s("g"), Fail(s("refused")))]))]),
+    ]
+}
+
+fn nested_valid_input() -> crate::sval::SVal {
+    use crate::sval::SVal::*;
+    let s = |x: &str| x.to_string();
+    let mut deep = Seq(vec![U8(1), Str(s("x"))], true);
+    for i in 0..10 {
+        deep = match i % 4 {
+            0 => Seq(vec![deep], true),
+            1 => NewtypeVariant(s("E"), 0, s("V"), Box::new(deep)),
+            2 => Struct(s("S"), vec![(s("f"), deep)]),
+            _ => Map(vec![(Str(s("k")), deep)], true),
+        };
+    }
+    Struct(s("Facts"), vec![(s("id"), I64(1001)), (s("deep"), deep), (s("list"), Tuple(vec![Some(Box::new(U8(2))), None]))])
+}
+
+/// k evaluations whose input fails to serialize (kind f), all on one fresh thread; in between and afterwards a valid nested
+/// input must give exactly what it gives on a thread without that history
+fn check_serializable_history(f: usize, k: usize) -> Verdict {
+    let fails = failing_inputs();
+    let bad = &fails[f];
+    let good = nested_valid_input();
+    let spec = SetSpec {
+        rules: vec![("whole".into(), Expr::reff("facts")), ("leaf".into(), Expr::index(Expr::reff("list"), reval::expr::Index::Vec(0)))],
+        fns: BTreeMap::new(),
+        symbols: BTreeMap::new(),
+        suspend: 0,
+    };
+    let run_good = |rs: &RuleSet| -> Result<Outs, String> {
+        catch(|| block_on(rs.evaluate(&good)).map(detach).map_err(|e| e.to_string())).map_err(|p| format!("panic {p}"))?
+    };
+    let baseline = std::thread::scope(|sc| sc.spawn(|| run_good(&probe::build(&spec, false).ruleset)).join())
+        .map_err(|_| Issue::new("sched:panic", "baseline thread panicked"))?
+        .map_err(|e| Issue::new("sched:serde-history:baseline", format!("a valid nested input fails without any history: {e}")))?;
+    std::thread::scope(|sc| {
+        sc.spawn(|| {
+            let built = probe::build(&spec, false);
+            for step in 0..k {
+                let r = catch(|| block_on(built.ruleset.evaluate(bad)).map(detach).map_err(|e| e.to_string()));
+                match r {
+                    Err(p) => return Err(Issue::new("sched:panic", format!("evaluate(&T) panicked on {bad:?}: {p}"))),
+                    Ok(Ok(_)) => return Err(Issue::new("sched:serde-history:failure-ignored", format!("input {bad:?} cannot be serialized but evaluate succeeded"))),
+                    Ok(Err(_)) => {}
+                }
+                if step % 37 == 36 || step + 1 == k {
+                    // a fresh ruleset as well as the one that saw the failures
+                    for (which, rs) in [("the same ruleset", &built.ruleset), ("a fresh ruleset", &probe::build(&spec, false).ruleset)] {
+                        match run_good(rs) {
+                            Ok(o) if same_outs(&o, &baseline) => {}
+                            other => {
+                                return Err(Issue::new(
+                                    "sched:serde-history:depends-on-failed-evaluations",
+                                    format!(
+                                        "after {} evaluations that failed to serialize {bad:?} on this thread, evaluate(&valid nested input) on {which} gives {} but without that history {}",
+                                        step + 1,
+                                        match &other {
+                                            Ok(o) => show_outs(o),
+                                            Err(e) => format!("Err({e})"),
+                                        },
+                                        show_outs(&baseline)
+                                    ),
+                                ))
+                            }
+                        }
+                    }
+                }
+            }
+            Ok(())
+        })
+        .join()
+    })
+    .unwrap_or_else(|_| Err(Issue::new("sched:panic", "history thread panicked")))
+}
+
+/// specs for many evaluations in flight at once / for one very large evaluation
+fn heavy_specs() -> Vec<(SetSpec, usize)> {
+    let call = |f: &str, x: i128| Expr::func(f, Expr::Vec(vec![Expr::reff("id"), Expr::value(x)]));
+    let mut fns = BTreeMap::new();
+    fns.insert("fa".to_string(), me::FnSpec { cacheable: true, fail_on: vec![], fail_first: 0 });
+    fns.insert("fb".to_string(), me::FnSpec { cacheable: false, fail_on: vec![], fail_first: 0 });
+    let nest = |mut e: Expr, depth: usize| {
+        for i in 0..depth {
+            e = match i % 4 {
+                0 => Expr::Vec(vec![e]),
+                1 => Expr::iif(Expr::value(true), e, Expr::value(0)),
+                2 => Expr::index(Expr::Vec(vec![Expr::value(0), e]), reval::expr::Index::Vec(1)),
+                _ => Expr::Map([("k".to_string(), e)].into_iter().collect()),
+            };
+        }
+        e
+    };
+    let mk = |rules: Vec<Expr>, suspend: u32| SetSpec {
+        rules: rules.into_iter().enumerate().map(|(i, e)| (format!("r{i}"), e)).collect(),
+        fns: fns.clone(),
+        symbols: BTreeMap::new(),
+        suspend,
+    };
+    // one evaluation that makes 300 distinct cacheable calls and then repeats each of them (every repeat must be served
+    // from this evaluation's own results: 300 invocations, not more, not fewer, in every run)
+    let big: Vec<Expr> = (0..300).map(|k| call("fa", k)).chain((0..300).map(|k| call("fa", k))).collect();
+    vec![
+        // (spec, number of evaluations in flight)
+        (mk(vec![nest(call("fa", 1), 12), nest(call("fb", 2), 9)], 1), 250),
+        (mk(vec![nest(call("fb", 1), 16)], 2), 120),
+        (mk(vec![nest(Expr::Vec(vec![call("fa", 1), call("fb", 1), call("fa", 1)]), 6)], 1), 64),
+        (mk(vec![Expr::Vec(big)], 1), 2),
+    ]
+}
+
 /// small pool of expressions for evaluation histories (so that repeats, and failures followed by repeats, are frequent)
 fn hist_pool() -> Vec<Expr> {
     let s = |x: &str| Expr::Value(Value::String(x.to_string()));
@@ -379,7 +510,7 @@ fn decode_history(bytes: &[u8]) -> (Vec<usize>, Vec<usize>) {
 }
 
 /// All on one thread: each result must be what the stateless reference evaluator gives for that expression alone.
-fn check_expression_history(bytes: &[u8]) -> Verdict {
+pub(crate) fn check_expression_history(bytes: &[u8]) -> Verdict {
     let pool = hist_pool();
     let (idx, inputs) = decode_history(bytes);
     for (step, (i, inp)) in idx.iter().zip(inputs.iter()).enumerate() {
@@ -408,7 +539,7 @@ pub fn run(ctx: &Ctx) {
         "Generated: rulesets of call-heavy rules over probes that suspend 0-3 times per call (returning Pending and waking by \
          reference), 1-4 concurrent evaluations of ONE ruleset (each input carries an id that is passed into every probe argument, so \
          invocations are attributable), a generated poll order over the live evaluations, and optionally a point (after the k-th \
-         Pending of one evaluation) at which that evaluation is dropped. Exhaustive core: 4 small rulesets x 2 evaluations x every \
+         Pending of one evaluation) at which that evaluation is dropped. Histories of 1-300 evaluate(&T) calls whose input fails to serialize (13 failure positions), all on one thread, followed by a valid nested input. Up to 250 evaluations of deeply nested rules in flight at once, and one evaluation making 300 distinct cacheable calls twice over. Exhaustive core: 4 small rulesets x 2 evaluations x every \
          poll order of 10 binary choices x every drop point 0..5 of either evaluation or none. Oracle: every completed evaluation's \
          outcomes and attributed invocation multiset equal those of the same input run alone to completion with non-suspending \
          probes; an abandoned evaluation's invocations are a prefix of its baseline's; two consecutive baseline runs are identical \
@@ -455,6 +586,49 @@ pub fn run(ctx: &Ctx) {
             })
         })
         .collect();
+    let nfail = failing_inputs().len() as u64;
+    let ks: [usize; 4] = [1, 40, 140, ctx.tier.pick(300, 1500)];
+    ctx.enumerate(
+        "failed-serialization-histories",
+        nfail * ks.len() as u64,
+        true,
+        |i, acc| {
+            acc.cell("history:failed-serializations-then-valid-input", true);
+            if i % 5 == 0 {
+                acc.sample("history:serde", || format!("{} x evaluate(&{:?}) then a valid nested input", ks[(i % 4) as usize], failing_inputs()[(i / 4) as usize]));
+            }
+            check_serializable_history((i / 4) as usize, ks[(i % 4) as usize])
+        },
+        |i| json!({"serde_history": [i / 4, ks[(i % 4) as usize]]}),
+        "serde-history",
+    );
+
+    let heavy: Vec<SchedCase> = heavy_specs()
+        .into_iter()
+        .flat_map(|(spec, n)| {
+            [None, Some((n / 2, 1u32))].into_iter().map(move |drop| SchedCase {
+                spec: spec.clone(),
+                inputs: (0..n).map(|i| simple_facts(i as i128 + 1)).collect(),
+                order: vec![],
+                drop,
+                abandoned_before: 0,
+            })
+        })
+        .collect();
+    ctx.enumerate(
+        "many-in-flight",
+        heavy.len() as u64,
+        true,
+        |i, acc| {
+            let c = &heavy[i as usize];
+            acc.cell(if c.inputs.len() > 2 { "heavy:many-evaluations-in-flight" } else { "heavy:one-large-evaluation" }, true);
+            acc.sample("heavy", || format!("{} evaluations of rules nested to depth {} in flight", c.inputs.len(), expr_depth(&c.spec.rules[0].1)));
+            std::thread::scope(|s| s.spawn(|| check(c)).join()).unwrap_or_else(|_| Err(Issue::new("sched:panic", "check thread panicked")))
+        },
+        |i| heavy[i as usize].to_json(),
+        "sched",
+    );
+
     ctx.enumerate(
         "abandoned-histories",
         hist.len() as u64,
@@ -524,6 +698,10 @@ pub fn run(ctx: &Ctx) {
 }
 
 pub fn replay(j: &serde_json::Value) -> Option<Verdict> {
+    if let Some(a) = j.get("serde_history").and_then(|a| a.as_array()) {
+        let (f, k) = (a.first()?.as_u64()? as usize, a.get(1)?.as_u64()? as usize);
+        return (f < failing_inputs().len()).then(|| check_serializable_history(f, k));
+    }
     if let Some(b) = j.get("history_bytes").and_then(|b| b.as_array()) {
         let bytes: Vec<u8> = b.iter().filter_map(|x| x.as_u64().map(|x| x as u8)).collect();
         return Some(check_expression_history(&bytes));
